@@ -19,7 +19,7 @@ BUDGET = {'quick': 2500, 'thorough': 12000}
 RULE = ("Case = 1-3 Inputs + 1-6 CBlocks (generic probe, FuncBlock, And/Or) with positional inputs, named "
         "singles and named groups of size 0-3, every reference drawn from {object, name, '_not_NAME' shortcut "
         "to S- or C-block, Const(v), bare constant} with repeats, 0-3 Events (destination by name/object) and "
-        "filters IfOutput / NotIfInitialized / DataEdit.add_output with control block by name/object, "
+        "filters IfOutput / NotIfInitialized / DataEdit.add_output (also two add_output steps of one chain naming different blocks under one key) with control block by name/object, "
         "finalisation by explicit Circuit.finalize() or implicitly at start; or a negative case with exactly "
         "one invalid element (unknown name, foreign-circuit block, CBlock as event destination, wrong input "
         "shape for Not/Compare/Override, list as positional input, duplicate name, connect twice, '_not__x', "
@@ -103,10 +103,14 @@ def cases(draw):
         cblocks.append({'kind': kind, 'pos': pos, 'named': named})
     events = [{'dest': draw(st.integers(0, ns - 1)), 'byname': draw(st.booleans())}
               for _ in range(draw(st.integers(0, 3)))]
-    filters = [{'kind': draw(st.sampled_from(['ifoutput', 'notifinit', 'add_output'])),
+    filters = [{'kind': draw(st.sampled_from(['ifoutput', 'notifinit', 'add_output', 'add_output2'])),
                 'ctrl': draw(st.sampled_from(names[:ns] if True else names)),
                 'byname': draw(st.booleans())} for _ in range(draw(st.integers(0, 3)))]
     for f in filters:
+        if f['kind'] == 'add_output2':
+            # one DataEdit chain referring to two blocks under the same key (the first value is moved away)
+            f['ctrl2'] = draw(st.sampled_from(names))
+            f['mid'] = draw(st.sampled_from(['rename', 'copy']))
         if f['kind'] != 'notifinit' and draw(st.booleans()):
             f['ctrl'] = draw(st.sampled_from(names))       # IfOutput/add_output accept any block
             if draw(st.integers(0, 2)) == 0:
@@ -183,6 +187,11 @@ def execute(case):
                     flt = edzed.IfOutput(ctrl)
                 elif f['kind'] == 'notifinit':
                     flt = edzed.NotIfInitialized(ctrl)
+                elif f['kind'] == 'add_output2':
+                    ctrl2 = f['ctrl2'] if not f['byname'] or f['ctrl2'] not in objs else objs[f['ctrl2']]
+                    flt = edzed.DataEdit.add_output('k', ctrl)
+                    flt = flt.rename('k', 'k1') if f['mid'] == 'rename' else flt.copy('k', 'k1')
+                    flt = flt.add_output('k', ctrl2)
                 else:
                     flt = edzed.DataEdit.add_output('k', ctrl)
                 filters.append((flt, f))
@@ -455,7 +464,10 @@ def inspect_circuit(circuit, case, objs, events, filters):
         try:
             out = flt({'x': 1})
             passed = verdict(out) == 'pass' or (verdict(out) == 'data' and out == {'x': 1})
-            if f['kind'] == 'add_output':
+            if f['kind'] == 'add_output2':
+                ok = (isinstance(out, dict) and out.get('k1', 'missing') is ctrl.output
+                      and out.get('k', 'missing') is byname[f['ctrl2']].output and out.get('x') == 1)
+            elif f['kind'] == 'add_output':
                 ok = isinstance(out, dict) and out.get('k', 'missing') is ctrl.output and out.get('x') == 1
             elif f['kind'] == 'ifoutput':
                 ok = passed if ctrl.output else verdict(out) == 'reject'
@@ -511,7 +523,11 @@ def functional(circuit, objs, filters):
     for flt, f in filters:
         ctrl = byname[f['ctrl']]
         out = flt({'x': 1})
-        if f['kind'] == 'add_output':
+        if f['kind'] == 'add_output2':
+            if not (isinstance(out, dict) and out['k1'] is ctrl.output and out['k'] is byname[f['ctrl2']].output):
+                errs.append(('C15.filter_control', f"running: {f}: {out!r} vs outputs {ctrl.output!r}, "
+                             f"{byname[f['ctrl2']].output!r}"))
+        elif f['kind'] == 'add_output':
             if not (isinstance(out, dict) and out['k'] is ctrl.output):
                 errs.append(('C15.filter_control', f"running: {f}: {out!r} vs output {ctrl.output!r}"))
         elif f['kind'] == 'ifoutput':
